@@ -192,6 +192,7 @@ class _Run:
     """Picklable result of one driven history."""
     def __init__(self, drv):
         self.events, self.calls, self.acalls = drv.events, drv.calls, drv.acalls
+        self.case_seed = drv.case_seed
 
 
 def _driver(job):
@@ -298,12 +299,18 @@ def judge(ctx, jobs, drivers, pre=()):
                 path = "[%s]" % ev["via"]
             sig = "C12:" + clause + path
             ctx.report(sig, "%s: %s" % (d.calls[idx - 1][:260], clause),
-                       {"dseed": dseed, "acalls": d.acalls[:idx],
+                       {"dseed": dseed, "case_seed": d.case_seed,
+                        "acalls": d.acalls[:idx],
                         "concrete_calls": [c[:400] for c in d.calls[:idx]
                                            if not c.startswith(
                                                ("GetClass", "Enumerate"))]
                         + [d.calls[idx - 1][:400]],
                         "failing_event": ev, "clause": clause})
+    collect_drift(ctx)
+    ctx.extra["impl_lockstep"] = (
+        "every trace is also followed by the code-shaped machine "
+        "(ClassModelImplOps, switches as in ClassModelTrace.cfg); events "
+        "where the real result differs are listed in impl_drift")
     for d in drivers[:1] + drivers[-2:]:
         ctx.sample({"calls": [c[:200] for c in d.calls[:5]],
                     "n_events": len(d.events),
@@ -311,10 +318,21 @@ def judge(ctx, jobs, drivers, pre=()):
                                       if e["op"] == "Get"), None)})
 
 
+def collect_drift(ctx):
+    import glob
+    import os
+    for f in glob.glob(os.path.join(ctx.work, "tlc*.out")):
+        with open(f) as fh:
+            txt = fh.read()
+        for m in re.finditer(r'<<"D", (\d+), (\d+), (\{[^}]*\})>>', txt):
+            ctx.note_drift("real result differs from the code-shaped machine "
+                           "(ClassModelImplOps as-is) in %s" %
+                           re.sub(r"\s+", " ", m.group(3)))
+
+
 def replay(rep):
     case = rep["case"]
-    rng = random.Random(case["dseed"])
-    drv = H.Driver(rng)
+    drv = H.Driver(random.Random(0), case_seed=case["case_seed"])
     for ac in case["acalls"]:
         drv.run(ac)
     drv.end()
